@@ -268,6 +268,7 @@ class ScriptTree(Bounded):
         'source-list': "t = executable('prog', files=['in.c'])\nins = [t.creator.files[0].creator.file]",
         'copy_file': "t = copy_file('in.txt')\nins = [t.creator.file]",
         'includes': "t = object_file(file='in.c', includes=['inc'])\nins = [t.creator.includes[0]]",
+        'man_page': "t = man_page('tool.1', compress=False)\nins = [t]",
         'extra_deps-of-a-library': "t = static_library('lb', files=['in.c'], extra_deps=['in.txt'])\nins = list(t.creator.extra_deps)",
         'extra_deps-of-a-step': "t = build_step('gen2.txt', cmd=['touch', 'gen2.txt'], extra_deps=['in.txt'])\nins = list(t.creator.extra_deps)",
     }
@@ -348,6 +349,8 @@ class ScriptTree(Bounded):
             lines.append("src = relpath('in.txt')")
             lines.append('env.trace.append((%r, %r, got, leaked, src.suffix, str(src.root)))' % (case, d))
             if d:
+                # (exporting a name again replaces the earlier value: the caller sees the last one)
+                lines.append('export(**{"from": "an earlier value"})')
                 lines.append('export(**{"from": %r})' % d)
             if case == 'options' and d in once:      # declaring the same argument twice is (rightly) an error
                 lines.append('argument(%r, default="unset")' % ('arg-' + var.replace('_', '-')))
@@ -426,13 +429,16 @@ def _check_inputs(self, case, raw):
     files[d + '/in.txt'] = ''
     files[d + '/in.c'] = 'int main() { return 0; }\n'
     files[d + '/inc/h.h'] = ''
+    files[d + '/tool.1'] = ''
     files[d + '/build.bfg'] = (ScriptTree.INPUT_BUILTINS[b] + '\n' +
                                'for o in ins:\n    env.trace.append(("in", o.path.suffix, str(o.path.root)))\n')
     trace = run_configure(files, [])
     if any(t[0] == 'FAILED' for t in trace):
         return self.fail(case, raw, 'configure_succeeds', error=[t[1] for t in trace if t[0] == 'FAILED'][0][-600:])
     ins = [t for t in trace if t[0] == 'in']
-    if not ins or any(o[2] != 'Root.srcdir' or not (o[1] + '/').startswith(d + '/') for o in ins):
+    names = {'source-list': 'in.c', 'copy_file': 'in.txt', 'includes': 'inc', 'man_page': 'tool.1'}
+    want = d + '/' + names.get(b, 'in.txt')
+    if not ins or any(o[2] != 'Root.srcdir' or o[1].rstrip('/') != want for o in ins):
         return self.fail(case, raw, 'input_path_relative_to_the_submodule_source_directory', got=ins)
     return True
 
